@@ -405,6 +405,13 @@ impl Api {
     fn rs(&self) -> &'static dyn RemoteSuite {
         remote_by_name(self.s.name()).expect("remote suite")
     }
+    /// choose what the external key serializes to (recorded, so that replays are faithful)
+    pub fn r_style(&self, style: u8) {
+        let _ = self.simple("r_style", vec![Arg::U(Some(style as u64))], || {
+            crate::adapter::remote_handle_style(style);
+            Ok(vec![style])
+        });
+    }
     pub fn r_handle(&self, sk: &[u8]) -> R<Vec<u8>> {
         self.simple("r_handle", vec![Arg::B(sk.to_vec())], || self.rs().r_handle(sk))
     }
@@ -543,6 +550,11 @@ pub fn reexec(c: &CallRec) -> (Result<Vec<String>, E>, Vec<String>) {
         "ke_sk_serde" => h1(api.ke_sk_serde(&a_blob(&a[0]))),
         "ke_pk_serde" => h1(api.ke_pk_serde(&a_blob(&a[0]))),
         "ke_random_sk" => h1(api.ke_random_sk(&mut t)),
+        "r_style" => {
+            let st = a_u(&a[0]).unwrap_or(0) as u8;
+            api.r_style(st);
+            h1(Ok(vec![st]))
+        }
         "r_handle" => h1(api.r_handle(&a_b(&a[0]))),
         "r_keypair" => {
             let (r, l) = api.r_keypair(&a_b(&a[0]), a_u(&a[1]).map(|x| x as usize));
